@@ -8,7 +8,7 @@ EXPLANATION = (
     "reach the select except through that computation; (T2) the value slept on is guarded by is_zero(): zero => immediate "
     "temporary_trampoline_failure, no pay; (T3) the timer arm answers exactly once with 0x2019 and can reach neither pay nor a store "
     "write; (T4) on the Free arm nothing is answered before the select and its operands are exactly {timer, fail request, ready}; "
-    "(T5) the configured value reaches params.mpp_timeout (C19-W, cited). Wall-clock behaviour is not decided."
+    "(T6) the timer is armed once: the sleep future of the pre-payment select is not created inside a loop (a re-armed timer lets every late partial HTLC extend the hold); (T5) the configured value reaches params.mpp_timeout (C19-W, cited). Wall-clock behaviour is not decided."
 )
 ASSUMPTIONS = ["tokio timer fires after the requested duration", "Duration::saturating_sub semantics", "attempt_time_seconds has one-second granularity"]
 
@@ -21,6 +21,7 @@ def run(F, X, rep):
     R.t2_zero_means_immediate(C, rep, "C11-T2")
     R.t3_timeout_arm(C, rep, "C11-T3")
     R.t4_not_before(C, rep, "C11-T4")
+    R.t6_timer_armed_once(C, rep, "C11-T6")
     # T5: the configured value reaches params.mpp_timeout (and is not crossed with the payment timeout)
     import p_c19
     mb = p_c19.main_body(F)
